@@ -256,6 +256,14 @@ pub fn c04(out: &mut Out, thorough: bool) {
         // every component influences the hash: a position differing in exactly one component hashes differently
         out.case("hash-one-component", nontrivial(&v), format!("expect distinct {p} #hash-components"), || hash_components(&v, b.zobrist()));
     }
+    // the hash of a built board depends on the assembled position only: refused placements and removals leave no trace
+    for t in ps.iter() {
+        let v = view(&t.board);
+        if v.rights == 0 && rng.chance(1, 6) {
+            let ops = builder_ops(&v, &mut rng, true);
+            out.case("builder-hash", true, format!("build {}", ops.join(" ")), || run_builder(&ops));
+        }
+    }
     // transpositions: two independent moves of the side to move, with the same replies, in both orders
     let pairs = if thorough { 100_000 } else { 5_000 };
     let mut made = 0;
@@ -427,7 +435,7 @@ pub fn c05(out: &mut Out, thorough: bool) {
     let mut ps = positions(&mut rng, n);
     // force every rights subset x both marker colours x a clock grid through playable skeletons
     for rights in 0..16u8 {
-        for &(half, full) in &[(0u32, 0u32), (0, 1), (7, 9999), (99, 50), (100, 1), (9999, 9999), (1234, 4321)] {
+        for &(half, full) in &[(0u32, 0u32), (0, 1), (7, 9999), (99, 50), (100, 1), (9999, 9999), (1234, 4321), (999, 1000), (1000, 999), (10, 100)] {
             let mut sq = [b'.'; 64];
             sq[4] = b'K';
             sq[60] = b'k';
@@ -446,7 +454,11 @@ pub fn c05(out: &mut Out, thorough: bool) {
                         s2[24 + f as usize - 1] = b'p';
                     }
                 }
-                if let Ok(b) = chess_movegen::fen::parse_fen(fen_of(&s2, white, rights, ep, half, full).as_bytes()) {
+                // the request is formed from the grid itself (not from what the implementation's parser lets through):
+                // a rejected grid position is a failing input, not a silently smaller grid
+                let txt = fen_of(&s2, white, rights, ep, half, full);
+                out.case("rights-marker-clock-grid", true, format!("fen roundtrip {}", pos64_of(&s2, white, rights, ep, half as u16, full as u16)), || parse_answer(txt.as_bytes()));
+                if let Some(b) = crate::common::guard(|| chess_movegen::fen::parse_fen(txt.as_bytes()).ok()).flatten() {
                     ps.push(Tagged { board: b, tag: "rights-marker-clock-grid" });
                 }
             }
@@ -597,6 +609,46 @@ fn mutate(rng: &mut Rng, fen: &str) -> Vec<u8> {
     v
 }
 
+
+/// descriptions with more than 16 men on one side (at most 32 in all), kings safe, men mobile: the parser must refuse
+/// them, because the move list has room for 16 movers and two en-passant entries only
+pub fn crowded_fens(rng: &mut Rng, n: usize) -> Vec<String> {
+    let mut v = Vec::new();
+    for i in 0..n {
+        let white_crowd = i % 2 == 0;
+        let mut sq = [b'.'; 64];
+        let men = 17 + rng.below(8) as usize; // 17..24
+        // the crowd lives on its own three ranks, its king among it; the other king far away on its back rank
+        let (lo, far_king) = if white_crowd { (0usize, 56 + rng.below(8) as usize) } else { (40usize, rng.below(8) as usize) };
+        let mut cells: Vec<usize> = (lo..lo + 24).collect();
+        for k in (1..cells.len()).rev() {
+            cells.swap(k, rng.below(k as u64 + 1) as usize);
+        }
+        let king_cell = cells[0];
+        sq[king_cell] = if white_crowd { b'K' } else { b'k' };
+        for &c in cells.iter().skip(1).take(men - 1) {
+            // knights (always mobile, short range so the far king stays safe) and a few pawns off the back ranks
+            let rank = c / 8;
+            let pawn_ok = rank != 0 && rank != 7;
+            let ch = if pawn_ok && rng.chance(1, 4) { b'p' } else { b'n' };
+            sq[c] = if white_crowd { ch.to_ascii_uppercase() } else { ch };
+        }
+        sq[far_king] = if white_crowd { b'k' } else { b'K' };
+        // a few men for the other side, next to its king's rank, at most 32 men in all
+        let others = rng.below(4) as usize;
+        for _ in 0..others {
+            let c = if white_crowd { 48 + rng.below(8) as usize } else { 8 + rng.below(8) as usize };
+            if sq[c] == b'.' {
+                sq[c] = if white_crowd { b'p' } else { b'P' };
+            }
+        }
+        // the crowded side is to move (so its men fill the move list) in most cases
+        let white_to_move = if rng.chance(1, 5) { !white_crowd } else { white_crowd };
+        v.push(fen_of(&sq, white_to_move, 0, None, 0, 1));
+    }
+    v
+}
+
 pub fn c06(out: &mut Out, thorough: bool) {
     let n = n_positions(thorough, 60_000, 1_500_000);
     let mut rng = Rng::new(out.seed ^ 0xC06);
@@ -634,6 +686,13 @@ pub fn c06(out: &mut Out, thorough: bool) {
         }
         let txt = fen_of_view(&v);
         out.case("reachable-is-accepted", true, format!("fen roundtrip {}", pos64(&v)), || parse_answer(txt.as_bytes()));
+        if rng.chance(1, 6) {
+            // the same placement late in a long game: clocks of every printed length
+            let (h, f) = *rng.pick(&[(0u16, 9u16), (9, 10), (10, 99), (99, 100), (100, 999), (999, 1000), (1000, 9999), (9999, 1)]);
+            let h = if v.ep.is_some() { 0 } else { h };
+            let txt = fen_of(&v.squares, v.white_to_move, v.rights, v.ep, h as u32, f as u32);
+            out.case("reachable-is-accepted", true, format!("fen roundtrip {}", pos64_of(&v.squares, v.white_to_move, v.rights, v.ep, h, f)), || parse_answer(txt.as_bytes()));
+        }
     }
     for f in corpus.iter().chain(fens.iter().take(2000)) {
         emit(out, "valid-fen", f.as_bytes(), &mut rng);
@@ -674,6 +733,9 @@ pub fn c06(out: &mut Out, thorough: bool) {
                 emit(out, "random-bytes", &v, &mut rng);
             }
         }
+    }
+    for f in crowded_fens(&mut rng, if thorough { 5_000 } else { 400 }) {
+        emit(out, "crowded", f.as_bytes(), &mut rng);
     }
     // builder: arbitrary assemblies, accepted ones must be valid too
     for _ in 0..(if thorough { 100_000 } else { 5_000 }) {
@@ -990,7 +1052,20 @@ pub fn c07(out: &mut Out, thorough: bool) {
             exercise(out, &mut rng, b, tag);
         }
     }
+    // more than 16 men on a side: refused, or else safe to use (the move list holds 18 entries)
+    let mut acc_crowded = 0u64;
+    for f in crowded_fens(&mut rng, if thorough { 5_000 } else { 400 }) {
+        out.case("crowded", true, format!("fen parse {}", hexbytes(f.as_bytes())), || parse_answer(f.as_bytes()));
+        if let Some(b) = crate::common::guard(|| chess_movegen::fen::parse_fen(f.as_bytes()).ok()).flatten() {
+            acc_crowded += 1;
+            exercise(out, &mut rng, b, "crowded");
+        }
+    }
+    out.notes.insert("crowded".into(), format!("{acc_crowded} descriptions with more than 16 men on a side accepted and exercised"));
     out.notes.insert("accepted-from-text".into(), format!("{acc_mut} mutated descriptions and {acc_rand} random placements accepted and exercised"));
+    // walking the opening book (whole book, the empty book, every node's children read to the end)
+    crate::tables::c17(out, thorough);
+    out.exhaustive = false;
     // clocks at the 16-bit limit through the builder
     for &(h, f) in &[(65535u32, 65535u32), (65534, 65535), (65535, 0), (99, 65535)] {
         for white in [true, false] {
